@@ -334,7 +334,7 @@ def shard(desc):
                 c.op('N', 0)
                 w = 10.0 ** rng.uniform(-3, 3)
                 ws = [w, -w] + ([0.0] if n >= 3 else []) + ([0.0] if n >= 4 else [])
-                xs_ = rng.sample([v for v in vals if v == v], n)
+                xs_ = [rng.choice(vals) for _ in range(n)]
                 flat = []
                 for a, b in zip(xs_, ws):
                     flat += [a, b]
